@@ -87,4 +87,5 @@ Definition run_case_C05 (c : case) : bytes :=
   if N.eqb (c_kind c) 1 then run_order_plan_case c
   else if N.eqb (c_kind c) 2 then run_trace_case_ord c
   else if N.eqb (c_kind c) 3 then str [111;107;58;98;117;114;115;116]   (* "ok:burst": judged by the Go oracle only *)
+  else if N.eqb (c_kind c) 4 then str [111;107;58;111;118;101;114;102;108;111;119]   (* "ok:overflow": idem *)
   else bad_case_output.
